@@ -396,3 +396,140 @@ Theorem C05_example_apply :
 Proof. exact records_example_apply. Qed.
 Print Assumptions C05_example_apply.
 
+
+(* ---- the same along MULTI-VERSION histories under the identity converter (Proofs/MultiVersion.v,
+   corollaries of the transparency theorem of C20): every operation of the history at its own
+   version label (one schema behind every label, any visiting order of the versions), the
+   last operation at an arbitrary label; updates inside the history submit neither empty
+   lists nor duplicate members (the restriction of Proofs/Transparent.v). ---- *)
+From Coq Require Import List ZArith String Bool Arith Lia Permutation.
+From SMD Require Import Model.Value Model.Order Model.PathElem Model.PathSet Model.Schema Model.Walk
+  Model.Validate Model.FieldSet Model.Remove Model.Merge Model.Compare Model.Matcher Model.Reconcile
+  Model.Updater
+  Spec.PathsAsSets Spec.RefValid Spec.Resolve Spec.Agree Spec.RefDiff Spec.Examples
+  Proofs.OrderLaws Proofs.PathSetLaws Proofs.SchemaOk Proofs.FieldSetBase Proofs.FieldSetPaths
+  Proofs.FieldSetWf Proofs.FieldSetLaws Proofs.RemoveAbsent Proofs.RemoveWf Proofs.ResolveLaws
+  Proofs.UpdaterLaws Proofs.UpdaterLaws2 Proofs.MergeLaws Proofs.MergeAgree
+  Proofs.RemoveFrame Proofs.EnLaws Proofs.NodeSet Proofs.KeyFields Proofs.VeqbResolve
+  Proofs.SetCheckers Proofs.ApplyEffect Proofs.Visible Proofs.ApplyInv Proofs.History
+  Proofs.TransparentPrune Proofs.TransparentCore Proofs.TransparentStep Proofs.Transparent
+  Proofs.Reapply Proofs.ConflictsApply Proofs.NoOtherFailure Proofs.RecordsHistory
+  Proofs.MultiVersionBase.
+From SMD Require Proofs.ApplyPrune.
+From SMD Require Import Proofs.MultiVersion.
+Theorem C05_apply_records_exact_multi_version :
+  forall (c : config) (R : typeref -> Prop) (ver : string) (ops : list vhop)
+           (v mgr : string) (cfg : value) (force : bool) (o : option tv) 
+           (mf' : managed) (fs : pset),
+         setting_ok c R ver ->
+         one_schema c ver ->
+         order_perm c ->
+         Forall (vop_ok c ver) ops ->
+         op_ok c ver (HApply mgr cfg force) ->
+         let live := snd (fst (vrun c ver ops)) in
+         let mf := snd (vrun c ver ops) in
+         apply_op c (fst (vrun c ver ops)) (v, cfg) v mf mgr force = UOk (o, mf') ->
+         to_field_set (schema_of c ver) (tr_of c ver) cfg = Some fs ->
+         let res := match o with
+                    | Some t => snd t
+                    | None => live
+                    end in
+         let d := ref_diff (schema_of c ver) (tr_of c ver) live res in
+         let touched :=
+           fun p : path => pmem p (rd_removed d) || pmem p (rd_modified d) || pmem p (rd_added d)
+           in
+         match mf_get mgr mf' with
+         | Some r' =>
+             mr_applied r' = true /\
+             mr_ver r' = v /\
+             (forall p : path, wf_path p = true -> p <> nil -> ps_has p (mr_set r') = ps_has p fs)
+         | None => ps_empty fs = true
+         end /\
+         (forall m : string,
+          m <> mgr ->
+          forall p : path,
+          wf_path p = true ->
+          p <> nil ->
+          match mf_get m mf with
+          | Some r =>
+              match mf_get m mf' with
+              | Some r' =>
+                  mr_applied r' = mr_applied r /\
+                  mr_ver r' = mr_ver r /\
+                  ps_has p (mr_set r') = ps_has p (mr_set r) && negb (touched p)
+              | None => ps_has p (mr_set r) && negb (touched p) = false
+              end
+          | None => mf_get m mf' = None
+          end).
+Proof. exact mv_apply_records_exact. Qed.
+Print Assumptions C05_apply_records_exact_multi_version.
+
+Theorem C05_update_records_exact_multi_version :
+  forall (c : config) (R : typeref -> Prop) (ver : string) (ops : list vhop)
+           (v mgr : string) (obj : value) (t : tv) (mf' : managed),
+         setting_ok c R ver ->
+         one_schema c ver ->
+         order_perm c ->
+         Forall (vop_ok c ver) ops ->
+         op_ok c ver (HUpdate mgr obj) ->
+         let live := snd (fst (vrun c ver ops)) in
+         let mf := snd (vrun c ver ops) in
+         update_op c (fst (vrun c ver ops)) (v, obj) v mf mgr = UOk (t, mf') ->
+         let d := ref_diff (schema_of c ver) (tr_of c ver) live obj in
+         let touched :=
+           fun p : path => pmem p (rd_removed d) || pmem p (rd_modified d) || pmem p (rd_added d)
+           in
+         t = (v, obj) /\
+         (forall p : path,
+          wf_path p = true ->
+          p <> nil ->
+          let before :=
+            match mf_get mgr mf with
+            | Some r => ps_has p (mr_set r)
+            | None => false
+            end in
+          let after :=
+            before && negb (pmem p (rd_removed d)) || pmem p (rd_modified d)
+            || pmem p (rd_added d) in
+          match mf_get mgr mf' with
+          | Some r' => mr_applied r' = false /\ mr_ver r' = v /\ ps_has p (mr_set r') = after
+          | None => after = false
+          end) /\
+         (forall m : string,
+          m <> mgr ->
+          forall p : path,
+          wf_path p = true ->
+          p <> nil ->
+          match mf_get m mf with
+          | Some r =>
+              match mf_get m mf' with
+              | Some r' =>
+                  mr_applied r' = mr_applied r /\
+                  mr_ver r' = mr_ver r /\
+                  ps_has p (mr_set r') = ps_has p (mr_set r) && negb (touched p)
+              | None => ps_has p (mr_set r) && negb (touched p) = false
+              end
+          | None => mf_get m mf' = None
+          end) /\
+         (forall (m : string) (r' : mrec), mf_get m mf' = Some r' -> ps_empty (mr_set r') = false).
+Proof. exact mv_update_records_exact. Qed.
+Print Assumptions C05_update_records_exact_multi_version.
+
+Theorem C05_labels_after_an_apply :
+  forall (c : config) (R : typeref -> Prop) (ver : string) (ops : list vhop)
+           (v mgr : string) (cfg : value) (force : bool) (o : option tv) 
+           (mf' : managed),
+         setting_ok c R ver ->
+         one_schema c ver ->
+         order_perm c ->
+         Forall (vop_ok c ver) ops ->
+         apply_op c (fst (vrun c ver ops)) (v, cfg) v (snd (vrun c ver ops)) mgr force =
+         UOk (o, mf') ->
+         (forall r' : mrec, mf_get mgr mf' = Some r' -> mr_ver r' = v) /\
+         (forall (m : string) (r' : mrec),
+          m <> mgr ->
+          mf_get m mf' = Some r' ->
+          exists r : mrec, mf_get m (snd (vrun c ver ops)) = Some r /\ mr_ver r' = mr_ver r).
+Proof. exact mv_apply_labels. Qed.
+Print Assumptions C05_labels_after_an_apply.
+
